@@ -21,7 +21,7 @@ def run(ck):
     ck.trusted += ["harness/c13.py; hand model QV/Model/C13.lean validated on generated inputs",
                    "numpy.fft computes the DFT with e^{-2 pi i/n} (contract; re-validated by the direct-sum oracle on every case)",
                    "the model's roots of unity are handed over as floating-point numbers (exact rationals of the floats)"]
-    ck.prove(PROPS, extra_modules=["QV.Drive.C13"], also=["QV.Props.C13Inverse"])
+    ck.prove(PROPS, extra_modules=["QV.Drive.C13"], also=["QV.Props.C13Inverse", "QV.Props.C13Linear"])
     lines, impl, kinds = [], [], []
 
     def emit(l, o, k):
